@@ -251,7 +251,7 @@ Proof.
   { apply Forall_map. apply Forall_forall. intros os Hos. rewrite forallb_forall in Safe. apply guarded_ops; auto. }
   destruct (r_outcome r) as [|[q|q|]] eqn:Eo; try discriminate.
   2:{ rewrite (never_stuck _ _ Ford S) in Hout. discriminate. }
-  rewrite !andb_true_iff in Hout. destruct Hout as [[[[[T Fm] Sn] Bd] Tm] Lk].
+  rewrite !andb_true_iff in Hout. destruct Hout as [[[[[[T Fm] Sn] Bd] Tm] Lk] Ins].
   repeat split; try assumption; try reflexivity.
   - now apply errs_spec_all.
   - destruct (serializable_terminal _ _ Fg S T) as [L P].
